@@ -40,7 +40,8 @@ behaviour but only in ways no property forbids (other tie-breaking, another vali
 `legit2-<group>-<n>`: a second such round written after the round-4/5 strengthenings (other evaluation orders, other RNG APIs,
 header-tolerant loaders, re-associated arithmetic, Python-number graph state, ...); `legit3-<group>-<n>`: a third round aimed at
 HOW AND WHEN internal steps run (results cached and reused, candidates installed as prefixes of one neighbour search, early stops,
-extra bookkeeping calls, deferred / lazy / fully sorted heaps, lazily parsed files). "first run" names checks that raised an alarm
+extra bookkeeping calls, deferred / lazy / fully sorted heaps, lazily parsed files); `legit4-<group>-<n>`: a fourth, smaller round (scratch
+classifiers, extra logging evaluations, lazily built nodes, other tie rules in predict, ...). "first run" names checks that raised an alarm
 before a clause demanding more than its statement was corrected (DESIGN.md, Corrections log); two patches of the third round turned
 out to break C19 themselves (models can no longer be pickled) and are kept only as a record.
 Each was applied to a scratch worktree and the listed quick checks were run against it (`tools/allchecks_on_patch.sh`).
